@@ -1,14 +1,20 @@
 (* C09 — Snowflake ids: increasing, unique, field-separable for any machine id and clock.
    This file holds only the property theorems; each is closed by an exact lemma and
-   followed by Print Assumptions. *)
-From Coq Require Import ZArith List Bool.
+   followed by Print Assumptions.
+
+   Vocabulary (C09/Model.v): a clock is the list of readings of currentTimeUnit();
+   [new_sf mid t0] is NewSnowflake(mid) reading t0; [next clk st] is one call of Next (it
+   consumes one reading, or several in the wait loop after sequence exhaustion; an exhausted
+   list is the outcome Blocked); [run_all clk st] calls Next as long as readings remain and
+   records (state before, clock before, outcome) per call. *)
+From Coq Require Import ZArith List Bool Sorted.
 From FV Require Import Generated.Consts C09.Model C09.Proofs.
 Import ListNotations.
 Open Scope Z_scope.
 
 (* "every id splits without overlap into rollback count, time, machine and sequence fields":
    the masks are exactly as wide as the fields, the shifts are the sums of the widths below,
-   and sign bit + 2 + 37 + 14 + 10 = 64 *)
+   and sign bit + 2 + 37 + 14 + 10 = 64.  Pure arithmetic on the regenerated constants. *)
 Theorem c09_fields_disjoint :
   x_uuid_MaxSeqID = 2 ^ x_uuid_SequenceBits - 1 /\
   x_uuid_MachineIDMask = 2 ^ x_uuid_MachineIDBits - 1 /\
@@ -19,3 +25,124 @@ Theorem c09_fields_disjoint :
   0 < x_uuid_SequenceBits /\ 0 < x_uuid_MachineIDBits /\ 0 < x_uuid_TimeUnitBits.
 Proof. exact fields_disjoint. Qed.
 Print Assumptions c09_fields_disjoint.
+
+(* "ids from one generator are strictly increasing and therefore unique" — for every machine
+   id and EVERY clock (no range assumption at all: the final guard of Next enforces it) *)
+Theorem c09_increasing : forall mid t0 clk,
+  StronglySorted Z.lt (ok_ids (outcomes (run_all clk (new_sf mid t0)))) /\
+  Forall (fun id => 0 < id) (ok_ids (outcomes (run_all clk (new_sf mid t0)))) /\
+  NoDup (ok_ids (outcomes (run_all clk (new_sf mid t0)))).
+Proof. exact increasing_thm. Qed.
+Print Assumptions c09_increasing.
+
+(* "every id splits ... into fields holding exactly the values that produced it": for every
+   machine id 0..65535 and every clock whose readings are not below -2^39 (174 years before
+   the epoch; below that the shifted time wraps in int64), an id returned by a call decodes to
+   the rollback count, time unit and sequence the generator holds after that call and to the
+   machine id's low MachineIDBits bits; it is the plain sum of the shifted fields; the time is
+   one of the readings the call saw and lies inside the range. *)
+Theorem c09_decode : forall mid t0 clk st c id,
+  0 <= mid < 65536 -> Forall (fun t => - 2 ^ 39 <= t) clk ->
+  In (st, c, Ok id) (run_all clk (new_sf mid t0)) ->
+  let st' := snd (fst (next c st)) in
+  decode id = (bc st', lastTU st', mid mod 2 ^ x_uuid_MachineIDBits, seq st') /\
+  id = bc st' * 2 ^ 61 + lastTU st' * 2 ^ 24 + (mid mod 2 ^ x_uuid_MachineIDBits) * 2 ^ 10 + seq st' /\
+  0 <= bc st' <= 3 /\ 0 <= lastTU st' <= x_uuid_MaxTimeUnits /\ 0 <= seq st' <= x_uuid_MaxSeqID /\
+  In (lastTU st') c /\ 0 < id < 2 ^ 63.
+Proof. exact decode_thm. Qed.
+Print Assumptions c09_decode.
+
+(* "generators whose machine fields differ never produce the same id" — whatever the two
+   clocks are (no assumption on the readings) *)
+Theorem c09_distinct_machines : forall mid1 mid2 t1 t2 clk1 clk2 id1 id2,
+  Z.land mid1 x_uuid_MachineIDMask <> Z.land mid2 x_uuid_MachineIDMask ->
+  In id1 (ok_ids (outcomes (run_all clk1 (new_sf mid1 t1)))) ->
+  In id2 (ok_ids (outcomes (run_all clk2 (new_sf mid2 t2)))) ->
+  id1 <> id2.
+Proof. exact distinct_machines_thm. Qed.
+Print Assumptions c09_distinct_machines.
+
+(* "generation does not fail spuriously" and "after more rollbacks than the format can mark
+   ... reports an error": on a trajectory inside the supported range the rollback counter of
+   the state equals the number of backward readings so far (saturating at 3), a call fails
+   only with ErrClockGoneBackwards and only at a backward reading that follows at least three
+   earlier ones — and such a reading always fails.  In particular ErrTimeUnitOverflow and the
+   final guard ErrUUIDIntOverflow are unreachable inside the range. *)
+Theorem c09_no_spurious : forall mid t0 clk pre st c o post,
+  0 <= t0 <= x_uuid_MaxTimeUnits -> Forall (fun t => 0 <= t <= x_uuid_MaxTimeUnits) clk ->
+  run_all clk (new_sf mid t0) = pre ++ (st, c, o) :: post ->
+  bc st = Z.min 3 (count_back pre) /\
+  match o with
+  | Ok _ | Blocked => True
+  | ErrClockGoneBackwards => hd 0 c < lastTU st /\ 3 <= count_back pre
+  | _ => False
+  end /\
+  (hd 0 c < lastTU st -> 3 <= count_back pre -> o = ErrClockGoneBackwards).
+Proof. exact no_spurious_thm. Qed.
+Print Assumptions c09_no_spurious.
+
+(* "beyond the time range ... generation reports an error": a reading beyond MaxTimeUnits
+   is refused and a fourth rollback is refused, in every state, leaving the state as it was *)
+Theorem c09_exhausted : forall st t rest,
+  (x_uuid_MaxTimeUnits < t -> next (t :: rest) st = (ErrTimeUnitOverflow, st, rest)) /\
+  (t <= x_uuid_MaxTimeUnits -> t < lastTU st -> 3 <= bc st ->
+     next (t :: rest) st = (ErrClockGoneBackwards, st, rest)).
+Proof. exact exhausted_thm. Qed.
+Print Assumptions c09_exhausted.
+
+(* "... rather than returning an id that could repeat": no call — also not one that waited
+   out an exhausted sequence — returns an id for a time unit beyond the range or with more
+   than three rollbacks marked *)
+Theorem c09_no_id_beyond_range : forall st clk id st' rest,
+  wf st -> Forall (fun t => - 2 ^ 39 <= t) clk -> next clk st = (Ok id, st', rest) ->
+  0 <= lastTU st' <= x_uuid_MaxTimeUnits /\ id_time id = lastTU st' /\ id_bc id = bc st' /\ bc st' <= 3.
+Proof. exact no_id_beyond_thm. Qed.
+Print Assumptions c09_no_id_beyond_range.
+
+(* every state a generator can reach is well-formed (the hypothesis of the theorem above) *)
+Theorem c09_reachable_wf : forall mid t0 clk st,
+  wf (new_sf mid t0) /\ (wf st -> wf (snd (fst (next clk st)))).
+Proof.
+  intros mid t0 clk st. split; [exact (wf_new mid t0)|].
+  intros W. pose proof (next_wf clk st W) as H. unfold step_wf in H.
+  destruct (next clk st) as [[o st'] r]. exact (proj1 H).
+Qed.
+Print Assumptions c09_reachable_wf.
+
+(* the reading count used by the correspondence check (Run.v compares it with the number of
+   clock readings the real call consumed) is the model's own consumption *)
+Theorem c09_consumed : forall clk st,
+  snd (next clk st) = skipn (Z.to_nat (next_k clk st)) clk.
+Proof. exact next_k_spec. Qed.
+Print Assumptions c09_consumed.
+
+(* non-vacuity: the model computes, the hypotheses are met by non-trivial runs *)
+Example c09_example_run :
+  (* machine 0x4001 keeps its low 14 bits; stall, advance, three rollbacks, then the fourth *)
+  outcomes (run_all [1002; 1002; 1004; 900; 800; 700; 600; 701]%list (new_sf 16385 1000)) =
+  [Ok 16810771456; Ok 16810771457; Ok 16844325888;
+   Ok 2305843024313189376; Ok 4611686031849161728; Ok 6917529039385134080;
+   ErrClockGoneBackwards; Ok 6917529039401911296]%list
+  /\ decode 6917529039401911296 = (3, 701, 1, 0)
+  /\ Forall (fun t => 0 <= t <= x_uuid_MaxTimeUnits) [1002; 1002; 1004; 900; 800; 700; 600; 701]%list.
+Proof.
+  split; [vm_compute; reflexivity|]. split; [vm_compute; reflexivity|].
+  repeat constructor; vm_compute; discriminate.
+Qed.
+
+(* sequence exhaustion: the 1024th call in one time unit waits for the next unit *)
+Example c09_example_exhaustion :
+  let clk := (repeat 5000 1024 ++ [5000; 5001; 5001])%list in
+  let os := outcomes (run_all clk (new_sf 7 5000)) in
+  length os = 1025%nat /\ nth 1022 os Blocked = Ok (5000 * 2 ^ 24 + 7 * 2 ^ 10 + 1023) /\
+  nth 1023 os Blocked = Ok (5001 * 2 ^ 24 + 7 * 2 ^ 10 + 0) /\
+  nth 1024 os Blocked = Ok (5001 * 2 ^ 24 + 7 * 2 ^ 10 + 1).
+Proof. vm_compute. repeat split; reflexivity. Qed.
+
+(* the range edge: the sequence runs out during MaxTimeUnits, the wait ends beyond the range *)
+Example c09_example_edge :
+  let clk := (repeat x_uuid_MaxTimeUnits 1025 ++ [x_uuid_MaxTimeUnits + 1])%list in
+  let os := outcomes (run_all clk (new_sf 1 (x_uuid_MaxTimeUnits - 1))) in
+  length os = 1025%nat /\ nth 1023 os Blocked = Ok (x_uuid_MaxTimeUnits * 2 ^ 24 + 2 ^ 10 + 1023) /\
+  nth 1024 os Blocked = ErrTimeUnitOverflow.
+Proof. vm_compute. repeat split; reflexivity. Qed.
